@@ -213,4 +213,113 @@ theorem first_match_max {β : Type} (prio : β → Nat) (m : β → Bool) (tbl :
       · rw [ha'] at hm; cases hm
       · exact h3 e' h hm
 
+/-! ### position of an inserted entry -/
+
+/-- `add_entry` puts the new entry behind every entry of strictly higher effective priority and in front of every entry of
+    equal or lower effective priority (so, in a sorted table, in front of its equals: newest first) -/
+theorem addEntry_position (e : Entry α) (tbl : Table α) (hs : Sorted tbl) :
+    ∃ l r, tbl = l ++ r ∧ addEntry e tbl = l ++ e :: r ∧
+      (∀ x ∈ l, x.effectivePriority > e.effectivePriority) ∧ (∀ x ∈ r, x.effectivePriority ≤ e.effectivePriority) := by
+  obtain ⟨k, hle, heq, hpos⟩ := addEntry_eq e tbl
+  obtain ⟨k', hk', _, hlo, hup⟩ := insertPos?_spec e.effectivePriority (tbl.map Entry.effectivePriority)
+    ((sorted_iff_desc tbl).mp hs)
+  rw [hpos] at hk'
+  cases hk'
+  refine ⟨tbl.take k, tbl.drop k, (List.take_append_drop k tbl).symm, heq, ?_, ?_⟩
+  · intro x hx
+    obtain ⟨i, hi, rfl⟩ := List.getElem_of_mem hx
+    have hik : i < k := by simp at hi; omega
+    have := hlo i (by simp; omega) hik
+    simpa using this
+  · intro x hx
+    obtain ⟨j, hj, rfl⟩ := List.getElem_of_mem hx
+    have hj' : k + j < tbl.length := by simp at hj; omega
+    have := hup (k + j) (by simpa using hj') (by omega)
+    simpa [List.getElem_drop] using this
+
+/-! ### histories of table operations -/
+namespace TableOps
+
+theorem step_add (tbl : Table α) (e : Entry α) : step tbl (.add e) = (addEntry e tbl, false) := by
+  simp [step, addEntry?_eq_some]
+
+/-- only `remove_entry` of an absent object raises -/
+theorem step_raises_iff (tbl : Table α) (op : Op α) : (step tbl op).2 = true ↔ ∃ i, op = .removeAt i ∧ tbl.length ≤ i := by
+  cases op with
+  | add e => simp [step_add]
+  | removeAt i =>
+    by_cases h : i < tbl.length
+    · simp [step, h]
+    · simp [step, h]; omega
+  | removeMatching m pr s po => simp [step]
+  | expire d => simp [step]
+
+/-- every operation other than `add` leaves a sub-list (same relative order) -/
+theorem step_sublist (tbl : Table α) (op : Op α) (h : ∀ e, op ≠ .add e) : (step tbl op).1.Sublist tbl := by
+  cases op with
+  | add e => exact absurd rfl (h e)
+  | removeAt i =>
+    simp only [step]
+    split
+    · exact List.eraseIdx_sublist _ _
+    · exact List.Sublist.refl _
+  | removeMatching m pr s po => exact List.filter_sublist
+  | expire d => exact List.filter_sublist
+
+theorem step_sorted (tbl : Table α) (op : Op α) (hs : Sorted tbl) : Sorted (step tbl op).1 := by
+  cases op with
+  | add e => rw [step_add]; exact addEntry_sorted e tbl hs
+  | removeAt i => exact sorted_sublist (step_sublist tbl _ (by intro e h; cases h)) hs
+  | removeMatching m pr s po => exact sorted_sublist (step_sublist tbl _ (by intro e h; cases h)) hs
+  | expire d => exact sorted_sublist (step_sublist tbl _ (by intro e h; cases h)) hs
+
+theorem runFrom_sorted (ops : List (Op α)) (tbl : Table α) (hs : Sorted tbl) : Sorted (runFrom tbl ops) := by
+  induction ops generalizing tbl with
+  | nil => exact hs
+  | cons op ops ih => exact ih _ (step_sorted tbl op hs)
+
+theorem run_sorted (ops : List (Op α)) : Sorted (run ops) := runFrom_sorted ops [] List.Pairwise.nil
+
+/-- an invariant of entries that holds for everything handed to `add_entry` holds for everything in the table -/
+theorem mem_step (tbl : Table α) (op : Op α) (x : Entry α) (hx : x ∈ (step tbl op).1) : x ∈ tbl ∨ op = .add x := by
+  cases op with
+  | add e =>
+    rw [step_add] at hx
+    rcases (mem_addEntry e x tbl).mp hx with rfl | h
+    · exact .inr rfl
+    · exact .inl h
+  | removeAt i => exact .inl ((step_sublist tbl _ (by intro e h; cases h)).subset hx)
+  | removeMatching m pr s po => exact .inl ((step_sublist tbl _ (by intro e h; cases h)).subset hx)
+  | expire d => exact .inl ((step_sublist tbl _ (by intro e h; cases h)).subset hx)
+
+theorem mem_added_cons (op : Op α) (ops : List (Op α)) (x : Entry α) :
+    x ∈ added (op :: ops) ↔ op = .add x ∨ x ∈ added ops := by
+  cases op with
+  | add e =>
+    simp only [added, List.mem_cons, Op.add.injEq]
+    constructor
+    · rintro (h | h); exact .inl h.symm; exact .inr h
+    · rintro (h | h); exact .inl h.symm; exact .inr h
+  | removeAt i => simp [added]
+  | removeMatching m pr s po => simp [added]
+  | expire d => simp [added]
+
+theorem mem_runFrom (ops : List (Op α)) (tbl : Table α) (x : Entry α) (hx : x ∈ runFrom tbl ops) :
+    x ∈ tbl ∨ x ∈ added ops := by
+  induction ops generalizing tbl with
+  | nil => exact .inl hx
+  | cons op ops ih =>
+    rcases ih _ hx with h | h
+    · rcases mem_step tbl op x h with h' | h'
+      · exact .inl h'
+      · exact .inr ((mem_added_cons op ops x).mpr (.inl h'))
+    · exact .inr ((mem_added_cons op ops x).mpr (.inr h))
+
+theorem mem_run (ops : List (Op α)) (x : Entry α) (hx : x ∈ run ops) : x ∈ added ops := by
+  rcases mem_runFrom ops [] x hx with h | h
+  · cases h
+  · exact h
+
+end TableOps
+
 end Pox.OF
